@@ -256,3 +256,5 @@ fn c13_flex_vec_items_refused_first_push() {
     assert!(v.push(flat_vec![a]).is_ok(), "C13: a push that fits was refused after an earlier refused push");
     assert!(v.len() == 1 && v.iter().next().unwrap().as_slice()[0] == a, "C13: push after a refused push differs from the abstract sequence");
 }
+
+// (scripted histories for FlexVec<u16, u8> were tried and dropped: with 2-aligned items every step costs CBMC > 15 min)
